@@ -1277,3 +1277,47 @@ pub fn new_channel_guards(files: &[File], _n: &[String], reg: &mut Registry, out
     }
     Ok(())
 }
+
+// ------------------------------------------------------------------------------------------------
+// the MAC hook facade mirrors two setters of the front-ends: the three bodies, normalised
+
+/// `Device::set_adr` / `Device::set_datarate` of the async front-end (files[0]), of the non-blocking
+/// front-end (files[1]) and their mirrors in the cfg-guarded facade `VerifMac` (files[2]), as token
+/// strings with the parameters renamed positionally, `self.shared.mac` written `self.mac` and the
+/// final `;` dropped: the harness drives MAC-level histories through the facade, so the facade must
+/// say what the front-ends say.
+pub fn frontend_mirrors(files: &[File], _n: &[String], _reg: &mut Registry, out: &mut String) -> Res<()> {
+    if files.len() < 3 {
+        return Err("frontend_mirrors: expected async_device/mod.rs, nb_device/mod.rs, mac/verif.rs".into());
+    }
+    let norm = |sig: &Signature, block: &Block| -> String {
+        let params: Vec<String> = sig
+            .inputs
+            .iter()
+            .filter_map(|a| if let FnArg::Typed(pt) = a { if let Pat::Ident(i) = &*pt.pat { Some(i.ident.to_string()) } else { None } } else { None })
+            .collect();
+        let stmts = &block.stmts;
+        let text = quote::quote!(#(#stmts)*).to_string();
+        let mut toks: Vec<String> = text.split_whitespace().map(|t| match params.iter().position(|p| p == t) { Some(k) => format!("p{}", k), None => t.to_string() }).collect();
+        // self . shared . mac  →  self . mac
+        let mut k = 0;
+        while k + 4 < toks.len() {
+            if toks[k] == "self" && toks[k + 1] == "." && toks[k + 2] == "shared" && toks[k + 3] == "." && toks[k + 4] == "mac" {
+                toks.drain(k + 1..k + 3);
+            }
+            k += 1;
+        }
+        while toks.last().map(|t| t == ";").unwrap_or(false) {
+            toks.pop();
+        }
+        toks.join(" ")
+    };
+    for f in ["set_adr", "set_datarate"] {
+        for (k, (who, ty)) in [("async", "Device"), ("nb", "Device"), ("hook", "VerifMac")].into_iter().enumerate() {
+            let (sig, block, _) = find_method(&files[k..k + 1], Some(ty), None, f).ok_or(format!("{}::{} not found in file {}", ty, f, k))?;
+            writeln!(out, "/-- body of `{}::{}` ({}), normalised -/", ty, f, who).unwrap();
+            writeln!(out, "def {}_{} : String := {:?}\n", who, f, norm(sig, block)).unwrap();
+        }
+    }
+    Ok(())
+}
